@@ -1864,3 +1864,32 @@ Proof.
   intros n. exists (rw_sigs 0 n). split; [apply rw_sigs_ignored|].
   change (0 + 10)%N with (5 * 0 + 10)%N. rewrite rw_rearmed_run. cbn [snd]. lia.
 Qed.
+
+(* ---------------------------------------------------------------------------------------------
+   The progress file write *)
+Lemma pw_all_2 : forallb (pw_safe SUnique (pw_init 2)) (all_seqs 2 8) = true.
+Proof. vm_compute. reflexivity. Qed.
+Lemma pw_all_3 : forallb (pw_safe SUnique (pw_init 3)) (all_seqs 3 12) = true.
+Proof. vm_compute. reflexivity. Qed.
+
+Lemma C20_progress_write_atomic_proof :
+  (forall sched, In sched (all_seqs 2 8) -> pw_safe SUnique (pw_init 2) sched = true) /\
+  (forall sched, In sched (all_seqs 3 12) -> pw_safe SUnique (pw_init 3) sched = true).
+Proof.
+  split; intros sched H.
+  - exact (proj1 (forallb_forall _ _) pw_all_2 sched H).
+  - exact (proj1 (forallb_forall _ _) pw_all_3 sched H).
+Qed.
+
+Lemma C20_progress_write_atomic_code_proof :
+  gen_staging = SUnique /\
+  (forall sched, In sched (all_seqs 3 12) -> pw_safe gen_staging (pw_init 3) sched = true).
+Proof.
+  assert (E : gen_staging = SUnique) by (vm_compute; reflexivity).
+  rewrite E. split; [reflexivity | exact (proj2 C20_progress_write_atomic_proof)].
+Qed.
+
+Lemma C20_progress_write_shared_staging_refuted_proof :
+  pw_safe SShared (pw_init 2) [0; 1; 0; 1; 0; 1] = false /\
+  (let s := fold_left (pw_step SShared) [0; 1; 0; 1; 0; 1] (pw_init 2) in pw_read s = None /\ pw_lost s = true).
+Proof. vm_compute. repeat split; reflexivity. Qed.
